@@ -9,6 +9,16 @@ package bls
 //@ spec macro curveOK() bool = c != nil && c.GenG1 != nil && c.GenG2 != nil && c.GroupOrder != nil && negG2 != nil
 
 //@ type TBLS
+//@   recv this
+//@   ghost combined bool
+//@   field shares, commitments, publicKeysOfParties immutable_after Init SetShareData
+//@   field shares[], commitments[] guarded_by lock
+//@   // once every party's key is present no OnMsg can write the map any more (first value wins, participants only):
+//@   // KeyGen reads it without the lock from then on
+//@   field publicKeysOfParties[] guarded_by lock frozen_when forall i int :: 0 <= i && i < len(this.parties) ==> this.parties[i] in this.publicKeysOfParties
+//@   field Party, Logger config
+//@   field id, sendMsg, parties, threshold, init, signal immutable_after Init SetShareData
+//@   field sk, sd owned_by the goroutine that runs KeyGen / SetShareData / Sign on this instance
 //@   invariant [logger] this.Logger != nil
 //@   invariant [inited] this.init ==> this.shares != nil && this.commitments != nil && this.publicKeysOfParties != nil
 
@@ -22,12 +32,8 @@ package bls
 //@   ensures [reveal]  len(msgBytes) > 0 && msgBytes[0] == revealPK ==> result.2 == nil && result.1 && result.0 == revealPK
 //@   ensures [invalid] len(msgBytes) == 0 || msgBytes[0] == 0 || msgBytes[0] > revealPK ==> result.2 != nil
 //@
-//@ // tbls.init: the orchestrator registers the instance with the dispatcher only after Init (event assertion in
-//@ // threshold.runDKG$1 / prepareSigning)
-//@ func (*TBLS).OnMsg
-//@   props C10 C05
-//@   requires tbls.init && curveOK()
-//@
+//@ // (OnMsg: see the key generation section; tbls.init holds because the orchestrator registers the instance with the
+//@ // dispatcher only after Init)
 //@ func (*Verifier).Init
 //@   props C10 C13 C09
 //@   requires curveOK()
@@ -66,3 +72,209 @@ package bls
 //@   modifies heap:L!alg!G1
 //@   ensures  [non-nil] result != nil
 //@   loop 0: invariant [index] signatureIndex == rangeindex + 1 && sum != nil
+
+// ---- distributed key generation: state, phases (C05, C11; sequential reading) ----------------------------------------
+
+//@ spec macro participant(t *TBLS, p uint16) bool = p in elems(t.parties, len(t.parties))
+//@ spec macro allOthers(t *TBLS, m map[uint16][]byte) bool = forall i int :: 0 <= i && i < len(t.parties) && t.parties[i] != t.Party ==> t.parties[i] in m
+
+//@ monitor (*TBLS).lock
+//@   guards shares, commitments, publicKeysOfParties
+//@   invariant [shares]      forall p uint16 :: { dom(this.shares, p) } p in this.shares ==> this.shares[p] != nil
+//@   invariant [pks]         forall p uint16 :: { dom(this.publicKeysOfParties, p) } p in this.publicKeysOfParties ==> g2valid(this.publicKeysOfParties[p])
+//@   invariant [separate]    this.commitments != this.publicKeysOfParties || this.commitments == nil
+//@   invariant [share-keys]  forall p uint16 :: { dom(this.shares, p) } p in this.shares ==> participant(this, p) && p != this.Party
+//@   invariant [commit-keys] forall p uint16 :: { dom(this.commitments, p) } p in this.commitments ==> participant(this, p) && p != this.Party
+//@   // first value per peer wins: a critical section never removes or replaces an entry
+//@   stable [first-share]    forall p uint16 :: { dom(this.shares, p) } old(p in this.shares) ==> p in this.shares && this.shares[p] == old(this.shares[p])
+//@   stable [first-commit]   forall p uint16 :: { dom(this.commitments, p) } old(p in this.commitments) ==> p in this.commitments && same(this.commitments[p], old(this.commitments[p]))
+//@   stable [first-key]      forall p uint16 :: { dom(this.publicKeysOfParties, p) } old(p in this.publicKeysOfParties) ==> p in this.publicKeysOfParties && same(this.publicKeysOfParties[p], old(this.publicKeysOfParties[p]))
+//@   invariant [own-key]     this.publicKeysOfParties != nil && this.Party in this.publicKeysOfParties ==> this.combined
+//@   invariant [pk-keys]     forall p uint16 :: { dom(this.publicKeysOfParties, p) } p in this.publicKeysOfParties ==> participant(this, p)
+
+//@ func (*TBLS).Init
+//@   props C01 C05 C11
+//@   requires sendMsg != nil
+//@   on-entry:
+//@     ghost tbls.combined = false
+//@   ensures [inited]  tbls.init && tbls.shares != nil && tbls.commitments != nil && tbls.publicKeysOfParties != nil && tbls.sk == nil
+//@   ensures [empty]   tbls.commitments != tbls.publicKeysOfParties && forall p uint16 :: !(p in tbls.shares) && !(p in tbls.commitments) && !(p in tbls.publicKeysOfParties)
+//@   ensures [config]  same(tbls.parties, parties) && tbls.threshold == threshold && tbls.sendMsg == sendMsg
+//@   ensures [index]   (forall i int :: 0 <= i && i < len(parties) && parties[i] == tbls.Party ==> 1 <= tbls.id && tbls.id <= len(parties) && parties[tbls.id-1] == tbls.Party)
+//@   loop 0: invariant [index] 0 <= i && i <= len(parties) && party2ID != nil && forall k int :: 0 <= k && k < i && parties[k] == tbls.Party ==> 1 <= tbls.id && tbls.id <= i && parties[tbls.id-1] == tbls.Party
+
+//@ spec macro complete(t *TBLS, m map[uint16][]byte) bool = forall i int :: 0 <= i && i < len(t.parties) && t.parties[i] != t.Party ==> t.parties[i] in m
+//@ spec macro distinctParties(t *TBLS) bool = forall a int, b int :: 0 <= a && a < b && b < len(t.parties) ==> t.parties[a] != t.parties[b]
+//@ spec macro ready(t *TBLS) bool = t.init && t.sendMsg != nil && t.shares != nil && t.commitments != nil && t.publicKeysOfParties != nil &&
+//@                                  2 <= t.threshold && t.threshold <= len(t.parties) && 1 <= t.id && t.id <= len(t.parties) && t.parties[t.id-1] == t.Party
+
+//@ func (Polynomial).ValueAt
+//@   props C18 C11
+//@   requires curveOK() && forall k int :: 0 <= k && k < len(p) ==> p[k] != nil
+//@   modifies nothing
+//@   ensures [non-nil] result != nil
+//@   loop 0: invariant sum != nil && 0 <= i
+//@
+//@ func (*SSS).Gen
+//@   props C18 C11
+//@   requires curveOK() && 0 <= n && 0 <= sss.Threshold
+//@   modifies nothing
+//@   ensures [shape] len(result.0) == sss.Threshold && len(result.1) == n
+//@   ensures [non-nil] (forall k int :: 0 <= k && k < len(result.0) ==> result.0[k] != nil) && (forall k int :: 0 <= k && k < n ==> result.1[k] != nil)
+//@   loop 0: invariant len(polynomial) == sss.Threshold && 0 <= i && forall k int :: 0 <= k && k < i ==> polynomial[k] != nil
+//@   loop 1: invariant len(polynomial) == sss.Threshold && len(shares) == n && 1 <= evaluationPoint &&
+//@                     (forall k int :: 0 <= k && k < len(polynomial) ==> polynomial[k] != nil) &&
+//@                     (forall k int :: 0 <= k && k < evaluationPoint-1 ==> shares[k] != nil)
+//@
+//@ func localGen
+//@   props C11
+//@   requires curveOK() && 0 <= n && 0 <= t
+//@   modifies nothing
+//@   ensures len(result) == n && forall k int :: 0 <= k && k < n ==> result[k] != nil
+//@
+//@ func encodeMsg
+//@   props C01 C05
+//@   modifies nothing
+//@   ensures [shape]   len(result) == len(payload)+1 && result[0] == msgType
+//@   ensures [payload] forall k int :: 0 <= k && k < len(payload) ==> result[1+k] == payload[k]
+//@   ensures [content] string(result[1:]) == string(payload)
+//@
+//@ // participant and not-self: established by the orchestrator's participant filter and by the transport
+//@ func (*TBLS).OnMsg
+//@   props C10 C05
+//@   seq
+//@   requires tbls.init && curveOK()
+//@   requires [participant] participant(tbls, from) && from != tbls.Party
+//@   ensures [first-share]  old(from in tbls.shares) ==> tbls.shares[from] == old(tbls.shares[from])
+//@   ensures [first-commit] old(from in tbls.commitments) ==> same(tbls.commitments[from], old(tbls.commitments[from]))
+//@   ensures [first-key]    old(from in tbls.publicKeysOfParties) ==> same(tbls.publicKeysOfParties[from], old(tbls.publicKeysOfParties[from]))
+//@   ensures [others]       forall p uint16 :: p != from ==> (p in tbls.shares) == old(p in tbls.shares) && (p in tbls.commitments) == old(p in tbls.commitments) &&
+//@                                             (p in tbls.publicKeysOfParties) == old(p in tbls.publicKeysOfParties)
+//@   ensures [stored-key]   len(msgBytes) > 0 && msgBytes[0] == revealPK && !old(from in tbls.publicKeysOfParties) && g2valid(msgBytes[1:]) ==>
+//@                            from in tbls.publicKeysOfParties && same(tbls.publicKeysOfParties[from], msgBytes[1:])
+//@
+//@ func (*TBLS).flattenPublicKeys
+//@   props C01 C11 C20
+//@   requires [complete] tbls.publicKeysOfParties != nil && forall i int :: 0 <= i && i < len(tbls.parties) ==> tbls.parties[i] in tbls.publicKeysOfParties
+//@   modifies nothing
+//@   ensures  [shape] len(result) == len(tbls.parties) && forall i int :: 0 <= i && i < len(tbls.parties) ==> same(result[i], tbls.publicKeysOfParties[tbls.parties[i]])
+//@   loop 0: invariant len(publicKeys) == len(tbls.parties) && forall k int :: 0 <= k && k <= rangeindex ==> same(publicKeys[k], tbls.publicKeysOfParties[tbls.parties[k]])
+//@
+//@ func (*TBLS).combineShares
+//@   props C01 C05 C11
+//@   seq
+//@   requires curveOK() && tbls.sk != nil && tbls.shares != nil && tbls.publicKeysOfParties != nil && 1 <= tbls.id && tbls.id <= len(tbls.parties) && tbls.parties[tbls.id-1] == tbls.Party
+//@   requires [once] !tbls.combined
+//@   modifies tbls.sk, tbls.publicKeysOfParties[*], tbls.combined, heap:L!alg!F, heap:L!alg!G2
+//@   requires [complete] forall i int :: 0 <= i && i < len(tbls.parties) && tbls.parties[i] != tbls.Party ==> tbls.parties[i] in tbls.shares
+//@   requires [non-nil]  forall p uint16 :: p in tbls.shares ==> tbls.shares[p] != nil
+//@   ensures  [own-key]  tbls.sk != nil && tbls.Party in tbls.publicKeysOfParties && same(tbls.publicKeysOfParties[tbls.Party], result) &&
+//@                       string(result) == g2bytes(g2mul(val(c.GenG2), val(tbls.sk)))
+//@   ensures  [others]   forall p uint16 :: p != tbls.Party ==> (p in tbls.publicKeysOfParties) == old(p in tbls.publicKeysOfParties)
+//@   loop 0: invariant tbls.sk != nil
+//@   at mapupdate(tbls.publicKeysOfParties):
+//@     ghost tbls.combined = true
+//@
+//@ func (*TBLS).validateCommitments
+//@   props C05 C11
+//@   seq
+//@   requires tbls.commitments != nil
+//@   requires [committed] forall p uint16 :: p in tbls.publicKeysOfParties && p != tbls.Party ==> p in tbls.commitments
+//@   modifies nothing
+//@   ensures [match] result == nil ==> forall p uint16 :: p in tbls.publicKeysOfParties && p != tbls.Party ==>
+//@                     sha256(tbls.publicKeysOfParties[p]) == string(tbls.commitments[p])
+//@   loop 0: invariant [checked] forall p uint16 :: p in visited(tbls.publicKeysOfParties) && p != tbls.Party ==>
+//@                     sha256(tbls.publicKeysOfParties[p]) == string(tbls.commitments[p])
+
+// ---- subset enumeration and the cross-check of all t-subsets (C18, C05) ---------------------------------------------
+
+//@ spec macro increasingIn(s []int64, lo int, hi int) bool = (forall a int :: 0 <= a && a < len(s) ==> lo <= s[a] && s[a] <= hi) &&
+//@                                                               (forall a int, b int :: 0 <= a && a < b && b < len(s) ==> s[a] < s[b])
+
+//@ func concatInts
+//@   props C18
+//@   modifies nothing
+//@   ensures [shape]  len(result) == len(a) + len(elements) && (len(result) > 0 ==> fresh(result))
+//@   ensures [prefix] forall k int :: 0 <= k && k < len(a) ==> result[k] == a[k]
+//@   ensures [suffix] forall k int :: 0 <= k && k < len(elements) ==> result[len(a)+k] == elements[k]
+//@
+//@ // every subset handed to f has exactly targetAmount strictly increasing elements of 1..n
+//@ func choose
+//@   props C18 C05 C11
+//@   requires f != nil && 0 <= i && i <= n && len(currentSubGroup) <= targetAmount
+//@   requires [prefix] increasingIn(currentSubGroup, 1, i)
+//@   modifies currentSubGroup[*]
+//@   decreases n - i
+//@   on-call f(s):
+//@     assert [subset] len(s) == targetAmount && increasingIn(s, 1, n)
+//@
+//@ func chooseKoutOfN
+//@   props C18 C05 C11
+//@   requires f != nil && 0 <= k && 0 <= n
+//@   iterates f(s) nonempty-when 0 <= k && k <= n
+//@   iterates-requires [subset] len(s) == k && increasingIn(s, 1, n)
+//@
+//@ func localAggregatePublicKeys
+//@   props C10 C18 C01
+//@   requires curveOK() && len(evaluationPoints) >= 2
+//@   requires [keys]     forall m int :: 0 <= m && m < len(pks) ==> pks[m] != nil
+//@   requires [points]   forall a int :: 0 <= a && a < len(evaluationPoints) ==> 1 <= evaluationPoints[a] && evaluationPoints[a] <= len(pks)
+//@   requires [distinct] forall a int, b int :: 0 <= a && a < b && b < len(evaluationPoints) ==> evaluationPoints[a] != evaluationPoints[b]
+//@   modifies heap:L!alg!G2
+//@   ensures  [non-nil] result != nil && fresh(result)
+//@   loop 0: invariant sum != nil && 0 <= i
+//@
+//@ func (*TBLS).assembleThresholdPublicKey
+//@   props C05 C11 C18 C01
+//@   requires curveOK() && 2 <= tbls.threshold && tbls.threshold <= len(tbls.parties)
+//@   requires [complete] tbls.publicKeysOfParties != nil && forall i int :: 0 <= i && i < len(tbls.parties) ==> tbls.parties[i] in tbls.publicKeysOfParties
+//@   requires [valid]    forall p uint16 :: { dom(tbls.publicKeysOfParties, p) } p in tbls.publicKeysOfParties ==> g2valid(tbls.publicKeysOfParties[p])
+//@   modifies nothing
+//@   ensures  [non-nil]  result.0 != nil && result.1 != nil
+//@   at iterate chooseKoutOfN:
+//@     assert [key] thresholdPublicKey != nil && thresholdPublicKeys != nil
+//@
+//@ func (*TBLS).assembleThresholdPublicKey$1
+//@   inline
+//@   loop 0: invariant [keys] len(publicKeys) == rangeindex + 1 && forall m int :: 0 <= m && m < len(publicKeys) ==> publicKeys[m] != nil
+
+// ---- KeyGen (C05, C11, C01): sequential reading; waits, phases and timeout checks are inlined ------------------------
+
+//@ func (*TBLS).shareDistribution
+//@   inline
+//@   loop 0: invariant [sk] 0 <= i && (i >= tbls.id ==> tbls.sk != nil)
+//@   on-call tbls.sendMsg(m, bc, to):
+//@     assert [share-is-p2p] len(m) > 0 && m[0] == shareDistribution && !bc && to == tbls.parties[i] && to != tbls.Party
+//@
+//@ func (*TBLS).commitPhase
+//@   inline
+//@   on-call tbls.sendMsg(m, bc, to):
+//@     assert [commit-is-broadcast] len(m) == 33 && m[0] == commitPK && bc
+//@     assert [commit-binds-key]    string(m[1:]) == sha256(pk)
+//@
+//@ // no early reveal (C05): the key is revealed only when the commitment of every other party is held
+//@ func (*TBLS).revealPhase
+//@   inline
+//@   on-call tbls.sendMsg(m, bc, to):
+//@     assert [reveal-is-broadcast] len(m) > 0 && m[0] == revealPK && bc
+//@     assert [no-early-reveal]     forall i int :: 0 <= i && i < len(tbls.parties) && tbls.parties[i] != tbls.Party ==> tbls.parties[i] in tbls.commitments
+//@
+//@ // preconditions: Init was called with a list that contains Party (the orchestrator's event assertion, C06) and
+//@ // KeyGen runs once per initialised instance
+//@ func (*TBLS).KeyGen
+//@   props C01 C05 C11
+//@   seq
+//@   requires curveOK() && ready(tbls) && distinctParties(tbls) && ctx != nil && !tbls.combined
+//@   on-call (*TBLS).combineShares(t):
+//@     use distinctCard(tbls.parties)
+//@     use subsetCardEq(keys(tbls.shares), without(elems(tbls.parties, len(tbls.parties)), tbls.Party))
+//@   on-call (*TBLS).revealPhase(t, cx, k):
+//@     use distinctCard(tbls.parties)
+//@     use subsetCardEq(keys(tbls.commitments), without(elems(tbls.parties, len(tbls.parties)), tbls.Party))
+//@   on-call (*TBLS).validateCommitments(t):
+//@     use distinctCard(tbls.parties)
+//@     use subsetCardEq(keys(tbls.publicKeysOfParties), elems(tbls.parties, len(tbls.parties)))
+//@   at return:
+//@     assert [timeout-is-error] done(ctx) ==> result.1 != nil
+//@     assert [checked] result.1 == nil ==> forall p uint16 :: p in tbls.publicKeysOfParties && p != tbls.Party ==> sha256(tbls.publicKeysOfParties[p]) == string(tbls.commitments[p])
+//@     assert [stored]  result.1 == nil ==> tbls.sd != nil && len(tbls.sd.PublicKeys) == len(tbls.parties)
